@@ -152,7 +152,8 @@ func randPayload(rng *rand.Rand) []byte {
 	case 0:
 		return []byte{}
 	case 1:
-		b := make([]byte, 1<<20)
+		// large: one mebibyte exactly, a little more, and several
+		b := make([]byte, []int{1 << 20, 1<<20 + 17, 3<<20 + 5}[rng.Intn(3)])
 		rng.Read(b)
 		return b
 	case 2:
